@@ -73,9 +73,16 @@ def evaluate(cfg, only=None, res=None):
             m = space.mesh_spec(("uni", n, 2.0, 0.0))
             space.modeldisc.fvm(model, m, space.xnum.extrapol1())     # runs initdisc (nozzle needs the cell centres)
             prim = [R.copy(), U.copy(), P.copy()]
+        prim_before = [np.asarray(x).copy() for x in prim]
         with np.errstate(all="ignore"):
             q = model.prim2cons(prim)
-            back = model.cons2prim([x.copy() for x in q])
+            qin = [np.asarray(x).copy() for x in q]
+            qkeep = [x.copy() for x in qin]
+            back = model.cons2prim(qin)
+        if not all(np.array_equal(np.asarray(a), b) for a, b in zip(prim, prim_before)):
+            out.append(("C17/%s/prim2cons/modifies-its-input" % kind, "prim2cons changed the primitive arrays it was given", only or 0))
+        if not all(np.array_equal(a, b) for a, b in zip(qin, qkeep)):
+            out.append(("C17/%s/cons2prim/modifies-its-input" % kind, "cons2prim changed the conservative arrays it was given", only or 0))
         qref = [R, R * U, P / gm + 0.5 * R * umag2]
         for k, nm in enumerate(("density", "momentum", "energy")):
             sc = np.abs(qref[k]) if k != 1 else R * (np.abs(M) * c + 1e-300)
@@ -91,6 +98,22 @@ def evaluate(cfg, only=None, res=None):
         bad("roundtrip", "pressure", rel(back[2], P) / cond / EPS)
         f = space.field.fdata(model, m, [np.asarray(x).copy() for x in q])
         names = list(model.list_var())
+        # reading a variable is an observation: it must not modify the field, and reading it again (in any order) gives the same value
+        before = [np.asarray(d).copy() for d in f.data]
+        first = {}
+        for name in names:
+            with np.errstate(all="ignore"):
+                first[name] = np.array(f.phydata(name), copy=True)
+            changed = [k for k, (a, b) in enumerate(zip(f.data, before)) if not np.array_equal(np.asarray(a), b, equal_nan=True)]
+            if changed:
+                out.append(("C17/%s/%s/modifies-the-field" % (kind, name), "%s: phydata(%r) changed component(s) %r of the field it was read from" % (kind, name, changed), only or 0))
+                f = space.field.fdata(model, m, [b.copy() for b in before])
+        for name in reversed(names):
+            with np.errstate(all="ignore"):
+                again = np.asarray(f.phydata(name))
+            if again.shape != first[name].shape or not np.array_equal(again, first[name], equal_nan=True):
+                out.append(("C17/%s/%s/second-reading-differs" % (kind, name), "%s: phydata(%r) read a second time (after the other variables) differs from the first reading" % (kind, name), only or 0))
+        f = space.field.fdata(model, m, [b.copy() for b in before])
         H = g / gm * P / R + 0.5 * umag2
         sect = space.SECTION_LAWS[extra["law"]](m.centers()) if kind == "nozzle" else 1.0
         ref = {
